@@ -44,8 +44,8 @@ namespace {
 
 using sysinst::Sys;
 
-enum Kind : int { ProgW, DataW, MmioW, Send, Recv, SemSet, SemClear, SemMask, Poke, RunProg, Ahbm, Audio, TimerProg, NKIND };
-const char* kKindName[] = {"progw", "dataw", "mmiow", "send", "recv", "semset", "semclear", "semmask", "poke", "run", "ahbm", "audio", "timerprog"};
+enum Kind : int { ProgW, DataW, MmioW, Send, Recv, SemSet, SemClear, SemMask, Poke, RunProg, Ahbm, Audio, TimerProg, DmaExt, NKIND };
+const char* kKindName[] = {"progw", "dataw", "mmiow", "send", "recv", "semset", "semclear", "semmask", "poke", "run", "ahbm", "audio", "timerprog", "dmaext"};
 struct Op {
     int kind = 0;
     uint64_t a = 0, b = 0, c = 0;
@@ -274,6 +274,30 @@ std::string apply(Sys& s, const Op& op) {
             s.t->Run((unsigned)(op.c % 64));
         });
         break;
+    case DmaExt: // a small external -> DSP transfer on DMA channel k through whichever AHBM channel it is connected to; the connection
+                 // and the unit size are (re)programmed only when the option bits say so
+        o = s.guarded([&] {
+            unsigned k = (unsigned)(op.a % 8), ac = (unsigned)((op.a >> 3) % 3);
+            if ((op.a >> 5) & 1)
+                s.t->MMIOWrite((uint16_t)(0x0E6 + 6 * ac), (uint16_t)(1u << k)); // connect DMA channel k to AHBM channel ac
+            if ((op.a >> 6) & 1)
+                s.t->MMIOWrite((uint16_t)(0x0E2 + 6 * ac), (uint16_t)(((op.a >> 7) % 3) << 4)); // unit size 8 / 16 / 32 bits
+            s.t->MMIOWrite(0x1BE, (uint16_t)k);
+            s.t->MMIOWrite(0x1C0, (uint16_t)(0x100 + 4 * (op.b % 16))); // source (external) low
+            s.t->MMIOWrite(0x1C2, 0x2000);                              // source high
+            s.t->MMIOWrite(0x1C4, (uint16_t)(0x6000 + (op.b % 64)));    // destination (DSP data)
+            s.t->MMIOWrite(0x1C6, 0);
+            s.t->MMIOWrite(0x1C8, (uint16_t)(1 + op.c % 4));
+            s.t->MMIOWrite(0x1CA, 1);
+            s.t->MMIOWrite(0x1CC, 1);
+            s.t->MMIOWrite(0x1CE, 2);
+            s.t->MMIOWrite(0x1D0, 1);
+            for (uint16_t r = 0x1D2; r <= 0x1D8; r += 2)
+                s.t->MMIOWrite(r, 0);
+            s.t->MMIOWrite(0x1DA, 0x0007); // source space 7 (AHBM), destination space 0
+            s.t->MMIOWrite(0x1DE, 0x40C0);
+        });
+        break;
     case Ahbm:
         o = s.guarded([&] {
             uint32_t addr = (uint32_t)(op.a & 0xFFFF) * ((op.c & 2) ? 4 : 2);
@@ -381,6 +405,14 @@ vf::Result check(const Case& c) {
                                     "observations differ before any further call (" + what + "): " + d);
         }
     }
+    // registers no peripheral models and no history of this harness ever writes: their read-back is part of "straight after
+    // construction" too (plain storage must not start out as whatever the heap held)
+    for (uint16_t off : {0x100, 0x102, 0x01E, 0x02C, 0x02E, 0x03C, 0x03E, 0x20E, 0x210, 0x300, 0x5FE, 0x7FE}) {
+        uint16_t va = a->t->MMIORead(off), vb = b->t->MMIORead(off);
+        if (va != vb)
+            return vf::Result::fail(std::string("C17:") + (c.mode ? "reset:" : "fresh:") + "plain-cell:" + vf::hex(off),
+                                    "never-written MMIO cell " + vf::hex(off) + " reads " + vf::hex(va) + " on one instance and " + vf::hex(vb) + " on the other (" + what + ")");
+    }
     std::set<std::string> dirtied;
     for (size_t i = 0; i < c.q.size(); ++i) {
         std::string ra = apply(*a, c.q[i]), rb = apply(*b, c.q[i]);
@@ -422,7 +454,7 @@ vf::Result check(const Case& c) {
 rc::Gen<Op> genOp() {
     using namespace rc;
     return gen::map(gen::tuple(gen::weightedElement<int>({{2, ProgW}, {2, DataW}, {10, MmioW}, {2, Send}, {1, Recv}, {1, SemSet}, {1, SemClear}, {1, SemMask},
-                                                          {2, Poke}, {4, RunProg}, {1, Ahbm}, {2, Audio}, {2, TimerProg}}),
+                                                          {2, Poke}, {4, RunProg}, {1, Ahbm}, {2, Audio}, {2, TimerProg}, {2, DmaExt}}),
                                gen::resize(100, gen::arbitrary<uint64_t>()), vf::u16b(), vf::range<unsigned>(0, 4096)),
                     [](std::tuple<int, uint64_t, uint16_t, unsigned> t) {
                         Op op;
